@@ -14,6 +14,22 @@ from unyt._unit_lookup_table import inv_name_alternatives
 from unyt.exceptions import UnitParseError
 
 
+def _rewrite_special_characters(unit_expr):
+    # Avoid a parse error if someone uses the percent unit and the
+    # parser tries to interpret it as the modulo operator
+    unit_expr = unit_expr.replace("%", "percent")
+    return unit_expr.replace("°", "deg")
+
+
+# the tokenizer sees unit names after the textual rewriting above, so the
+# alternative names have to be looked up in their rewritten spelling as well
+# (otherwise names like "kilo°C" are never recognized)
+_token_name_alternatives = {
+    _rewrite_special_characters(name): used_name
+    for name, used_name in inv_name_alternatives.items()
+}
+
+
 def _auto_positive_symbol(tokens, local_dict, global_dict):
     """
     Inserts calls to ``Symbol`` for undefined variables.
@@ -36,7 +52,7 @@ def _auto_positive_symbol(tokens, local_dict, global_dict):
 
             # try to resolve known alternative unit name
             try:
-                used_name = inv_name_alternatives[str(name)]
+                used_name = _token_name_alternatives[str(name)]
             except KeyError:
                 # if we don't know this name it's a user-defined unit name
                 # so we should create a new symbol for it
@@ -76,10 +92,7 @@ def parse_unyt_expr(unit_expr):
         # Bug catch...
         # if unit_expr is an empty string, parse_expr fails hard...
         unit_expr = "1"
-    # Avoid a parse error if someone uses the percent unit and the
-    # parser tries to interpret it as the modulo operator
-    unit_expr = unit_expr.replace("%", "percent")
-    unit_expr = unit_expr.replace("°", "deg")
+    unit_expr = _rewrite_special_characters(unit_expr)
     try:
         unit_expr = parse_expr(
             unit_expr, global_dict=global_dict, transformations=unit_text_transform
